@@ -107,8 +107,39 @@ func checkC07(p *Prog, r *Report) {
 			// provenance: selected pair, or best valid pair computed inside the loop
 			good := true
 			var why []string
-			for _, d := range p.DefsOf(f, p.ObjOf(pairID)) {
-				if d.Rhs == nil {
+			// definitions of the written pair, looked through plain copies of locals that are assigned in this
+			// function itself (result temporaries of an extracted lookup)
+			var defs []VarDef
+			var expand func(o types.Object, depth int)
+			seenV := map[types.Object]bool{}
+			expand = func(o types.Object, depth int) {
+				if o == nil || seenV[o] || depth > 4 {
+					return
+				}
+				seenV[o] = true
+				for _, d := range p.DefsOf(f, o) {
+					if d.Rhs != nil && d.Index == 0 {
+						if id, ok := unparen(d.Rhs).(*ast.Ident); ok {
+							if v, isVar := p.ObjOf(id).(*types.Var); isVar && !v.IsField() {
+								assigned := false
+								for _, dd := range p.DefsOf(f, v) {
+									if dd.Rhs != nil {
+										assigned = true
+									}
+								}
+								if assigned {
+									expand(v, depth+1)
+									continue
+								}
+							}
+						}
+					}
+					defs = append(defs, d)
+				}
+			}
+			expand(p.ObjOf(pairID), 0)
+			for _, d := range defs {
+				if d.Rhs == nil || p.isNilExpr(d.Rhs) {
 					continue
 				}
 				if c, ok := unparen(d.Rhs).(*ast.CallExpr); ok && p.CalleeName(c) == "ice.Agent.getSelectedPair" {
